@@ -187,7 +187,7 @@ func parseRaces(stderr string, removals bool) []race {
 	return out
 }
 
-var eventRe = regexp.MustCompile(`^(EVENT|ETORN) key=(\S+) value=(-?\d+) updatedBy="(-?\d*)"`)
+var eventRe = regexp.MustCompile(`^(EVENT|ETORN|EDUP) key=(\S+) value=(-?\d+) updatedBy="(-?\d*)"`)
 
 // lock-order inversion found by agent a14: a scan of an index beacon (ShiftMatching, ShiftExpired,
 // CloneUnorderedTreasures, ...) holds the beacon mutex and waits for a record guard while a guard
@@ -284,7 +284,7 @@ func main() {
 				}
 				run.Add(common.App("CRead", common.Z(v), common.Z(by)), map[string]interface{}{"run": tag, "reader": m[2], "key": m[3], "value": v, "updatedBy": m[5]}, true)
 				run.Hist("read:" + strings.ToLower(m[1]))
-			case strings.HasPrefix(l, "EVENT ") || strings.HasPrefix(l, "ETORN "):
+			case strings.HasPrefix(l, "EVENT ") || strings.HasPrefix(l, "ETORN ") || strings.HasPrefix(l, "EDUP "):
 				m := eventRe.FindStringSubmatch(l)
 				if m == nil {
 					idx := run.Add("(CQuiet 0 0)", map[string]interface{}{"run": tag, "line": l}, false)
@@ -296,7 +296,11 @@ func main() {
 				if m[4] != "" {
 					by, _ = strconv.ParseInt(m[4], 10, 64)
 				}
-				run.Add(common.App("CEvent", common.Z(v), common.Z(by)), map[string]interface{}{"run": tag, "reader": "SubscribeToEvents", "key": m[2], "value": v, "updatedBy": m[4]}, true)
+				ctor := "CEvent"
+				if m[1] == "EDUP" {
+					ctor = "CEventDup"
+				}
+				run.Add(common.App(ctor, common.Z(v), common.Z(by)), map[string]interface{}{"run": tag, "reader": "SubscribeToEvents", "kind": m[1], "key": m[2], "value": v, "updatedBy": m[4]}, true)
 				run.Hist("event:" + strings.ToLower(m[1]))
 			case strings.HasPrefix(l, "NILREPLY "):
 				idx := run.Add("(CQuiet 0 0)", map[string]interface{}{"run": tag, "line": l}, false)
